@@ -39,6 +39,12 @@ open Lungo.C11
 #print axioms Lungo.C11.apply_error_is_total_rejection
 #print axioms Lungo.C11.match_never_panics
 #print axioms Lungo.C11.apply_never_panics
+#print axioms Lungo.C11.updatePaths_key_mem
+#print axioms Lungo.C11.updatePaths_rename_target_mem
+#print axioms Lungo.C11.pathsConflict_iff
+#print axioms Lungo.C11.conflict_rejected
+#print axioms Lungo.C11.accepted_conflict_free
+#print axioms Lungo.C11.accepted_paths_pairwise
 #print axioms Lungo.C11.record_conflict_free
 #print axioms Lungo.C11.changes_hold_partial
 #print axioms Lungo.C11.pop_change_holds
